@@ -227,7 +227,7 @@ write_type_info (const gchar *namespace,
     {
       xml_start_element (file, "type");
 
-      xml_printf (file, " name=\"%s\"", is_pointer ? "any" : "none");
+      xml_printf (file, " name=\"%s\"", is_pointer ? "gpointer" : "none");
 
       xml_end_element (file, "type");
     }
